@@ -158,6 +158,7 @@ extern "C" void h_reset() {
   vm.reset();
   bool eq = vm.instruction_pointer == fresh.instruction_pointer && vm.stepping_mode_enabled == fresh.stepping_mode_enabled && V_N(vm.data) == V_N(fresh.data) && V_N(vm.stack) == V_N(fresh.stack) && V_N(vm.enabled_breakpoints) == V_N(fresh.enabled_breakpoints);
   ASSERT(eq, "C17: after reset there are no activations, no data, no enabled breakpoints, stepping is off, ip is 0");
+  ASSERT(inv_geom(vm) && V_N(vm.data) == 0, "C19: after reset the data memory is exactly the (empty) set of live frames");
   ASSERT(fresh.instruction_pointer == 0 && V_N(fresh.data) == 0 && V_N(fresh.stack) == 0 && V_N(fresh.enabled_breakpoints) == 0 && !fresh.stepping_mode_enabled, "C17: (fresh machine is empty)");
   bool codeq = V_N(vm.code.code) == V_N(fresh.code.code);
   for (int i = 0; i < VM_L; i++) if (i < n) { const Instruction &A = V_AT(vm.code.code, i), &B = V_AT(fresh.code.code, i); codeq = codeq && A.op == B.op && A.parameters.test.target == B.parameters.test.target && A.parameters.test.op1 == B.parameters.test.op1 && A.parameters.test.op2 == B.parameters.test.op2; }
